@@ -137,6 +137,23 @@ func cutDirectories(p, dirs string) (string, bool) {
 	return p, false
 }
 
+// externalRefsFirst orders the names of a component map so that the components that are references
+// into other documents come first. Their values are then walked as external content before a
+// local reference to such a component ("#/components/schemas/Alias") can reach the same values as
+// if they belonged to the root document: values are walked once, and the first walk decides how
+// the file-local references inside them are read.
+func externalRefsFirst(names []string, ref func(name string) string) []string {
+	ordered := make([]string, 0, len(names))
+	for _, external := range []bool{true, false} {
+		for _, name := range names {
+			if isExternalRef(ref(name), false) == external {
+				ordered = append(ordered, name)
+			}
+		}
+	}
+	return ordered
+}
+
 func isExternalRef(ref string, parentIsExternal bool) bool {
 	return ref != "" && (!strings.HasPrefix(ref, "#/components/") || parentIsExternal)
 }
@@ -373,7 +390,13 @@ func (doc *T) derefSchema(s *Schema, refNameResolver RefNameResolver, parentIsEx
 }
 
 func (doc *T) derefHeaders(hs Headers, refNameResolver RefNameResolver, parentIsExternal bool) {
-	for _, name := range componentNames(hs) {
+	headerRef := func(name string) string {
+		if h := hs[name]; h != nil {
+			return h.Ref
+		}
+		return ""
+	}
+	for _, name := range externalRefsFirst(componentNames(hs), headerRef) {
 		h := hs[name]
 		isExternal := doc.addHeaderToSpec(h, refNameResolver, parentIsExternal)
 		if h == nil || h.Value == nil || doc.isVisitedHeader(h.Value) {
@@ -557,7 +580,13 @@ func (doc *T) InternalizeRefs(ctx context.Context, refNameResolver func(*T, Comp
 	}
 
 	if components := doc.Components; components != nil {
-		for _, name := range componentNames(components.Schemas) {
+		schemaRef := func(name string) string {
+			if schema := components.Schemas[name]; schema != nil {
+				return schema.Ref
+			}
+			return ""
+		}
+		for _, name := range externalRefsFirst(componentNames(components.Schemas), schemaRef) {
 			schema := components.Schemas[name]
 			isExternal := doc.addSchemaToSpec(schema, refNameResolver, false)
 			if schema != nil {
